@@ -143,12 +143,18 @@ func TestC20Child(t *testing.T) {
 		if cyc.Linked {
 			la, lb := a.Peering().GetLink(b.Identity().IP), b.Peering().GetLink(a.Identity().IP)
 			cyc.LinkPeersOK = la.Peer() == b.Identity().IP && lb.Peer() == a.Identity().IP && len(a.Peering().GetLinks()) == 1 && len(b.Peering().GetLinks()) == 1
-			notify, _, err := a.Router().PingPong.Send(b.Identity().IP, true, 0)
-			if err == nil {
+			// Frames may be dropped under load by design (non-blocking hand-offs),
+			// so the ping is repeated.
+			for try := 0; try < 20 && !cyc.PingOK; try++ {
+				notify, _, err := a.Router().PingPong.Send(b.Identity().IP, true, 0)
+				if err != nil {
+					time.Sleep(200 * time.Millisecond)
+					continue
+				}
 				select {
 				case <-notify:
 					cyc.PingOK = true
-				case <-time.After(5 * time.Second):
+				case <-time.After(time.Second):
 				}
 			}
 		}
